@@ -289,18 +289,22 @@ def design(pid, res, tier):
     # unbounded input (any number of chunks, data abstracted): control properties for every length
     if pid in ("C04", "C14"):
         for T in ((1, 2) if tier == "quick" else (1, 2, 3)):
-            for sp in ((False, True) if T < 3 else (False,)):     # T=3: 2.5 M states, ~24 min with liveness
+            for sp in ((False, True) if T < 3 else (False,)):
                 nm = "PLUB_%s_T%d_sp%d_p%d" % (pid, T, sp, os.getpid())
                 g = os.path.join(wv.SPEC, "gen"); os.makedirs(g, exist_ok=True)
+                # T = 3 has 6.3 M states since mutex releases are scheduling points: its liveness check (strong fairness of
+                # four threads) ran for more than an hour; at T = 3 only safety and deadlock freedom are decided, <>Done at
+                # T <= 2 and, per buffer, for every T on OneBuffer.tla
+                live_here = live and T < 3
                 txt = ("CONSTANTS T = %d  N = 0  S = 32  Dir = \"enc\"  EofPeek = TRUE  Pad = 0\n"
                        "  Gate = TRUE  NotifyReady = TRUE  NotifyUpdate = TRUE  WaitLoop = TRUE  ReadyTest = TRUE  Spurious = %s  Unbounded = TRUE\n"
                        "  Loads <- MCLoads  DecPad <- MCDecPad\nSPECIFICATION %s\nINVARIANTS TypeOK LockDiscipline %s\n%s" %
-                       (T, "TRUE" if sp else "FALSE", "UFairSpec" if live else "Spec", "Quiescent" if pid == "C04" else "Exclusive NoUnderflow",
-                        "PROPERTY Termination\n" if live else "CHECK_DEADLOCK FALSE\nPROPERTIES Refines0 RefinesLast%s\n" % (" Refines1" if T >= 3 else "")))
+                       (T, "TRUE" if sp else "FALSE", "UFairSpec" if live_here else "Spec", "Quiescent" if pid == "C04" else "Exclusive NoUnderflow",
+                        "PROPERTY Termination\n" if live_here else ("" if pid == "C04" else "CHECK_DEADLOCK FALSE\nPROPERTIES Refines0 RefinesLast%s\n" % (" Refines1" if T >= 3 else ""))))
                 with open(os.path.join(g, nm + ".cfg"), "w") as f:
                     f.write(txt)
                 runs.append((os.path.join("gen", nm), True))
-        res.cov["unbounded_input_abstraction"] = "Pipeline.tla with Unbounded = TRUE (any number of chunks of 1..2 blocks, block identities / output / counters abstracted): T in {1,2} (thorough: also 3; measured 2 512 364 distinct states, 8.6 M transitions), with and without spurious wake-ups - %s for inputs of every length" % ("deadlock freedom, Quiescent and <>Done under fairness (the input ends)" if pid == "C04" else "Exclusive and NoUnderflow")
+        res.cov["unbounded_input_abstraction"] = "Pipeline.tla with Unbounded = TRUE (any number of chunks of 1..2 blocks, block identities / output / counters abstracted): T in {1,2} (thorough: also 3; 6 278 337 distinct states, 25.6 M transitions), with and without spurious wake-ups - %s for inputs of every length" % ("deadlock freedom, Quiescent and (T <= 2) <>Done under fairness (the input ends)" if pid == "C04" else "Exclusive, NoUnderflow and the refinement onto OneBuffer.tla")
     negs = {"C14": ["MC_Pipeline_neg_gate", "MC_Pipeline_neg_while"], "C03": ["MC_Pipeline_neg_gate2"],
             "C04": ["MC_Pipeline_neg_eof1", "MC_Pipeline_neg_notifyR", "MC_Pipeline_neg_notifyU", "MC_Pipeline_neg_readytest"]}[pid]
     for ng in negs:
